@@ -367,6 +367,10 @@ const Quaternion<T,Unitary> eigen (const Quaternion<T,Hermitian>& q)
 {
   T p = norm( q.get_vector() );
 
+  // a multiple of the identity is already diagonal
+  if (p == 0)
+    return Quaternion<T,Unitary> (1.0, 0.0, 0.0, 0.0);
+
   /*
     q.s0 == 0 is a special case used by calculate_Jacobi and is required
     for the Jacobi method to work on Hermitian matrices.  Unfortunately,
